@@ -410,3 +410,112 @@ func FuzzC07Grammar(f *testing.F) {
 	f.Add([]byte{0, 1, 2, 3, 4, 5, 6, 7, 8, 9, 10, 11, 12, 13, 14, 15})
 	f.Fuzz(rapid.MakeFuzz(c07GrammarCase))
 }
+
+// TestC07_FarIndexes: mappings with a very fine (legal) accuracy put the two ends of the indexable range more
+// than 2^32 indexes apart, so that encoded index deltas do not fit in 32 bits. Producers and consumers are the
+// stores that can hold such indexes (sparse; buffered-paginated with unit weights only, which stay in its buffer).
+func TestC07_FarIndexes(t *testing.T) {
+	rapid.Check(t, func(t *rapid.T) {
+		cl := newCase("C07")
+		alpha := rapid.SampledFrom([]float64{1e-7, 1.5e-7, 2e-7, 3e-7, 1e-6}).Draw(t, "alpha")
+		kind := rapid.SampledFrom(gen.MapKinds).Draw(t, "mkind")
+		spec := gen.MapSpec{Kind: kind, FromAlpha: true, Alpha: alpha, Nominal: alpha}
+		m, err := spec.Build()
+		if err != nil {
+			t.Fatalf("C07: %v", err)
+		}
+		d := newDomain(m)
+		unitOnly := rapid.Bool().Draw(t, "unitonly")
+		prodKind := "sparse"
+		if unitOnly && rapid.Bool().Draw(t, "paginatedproducer") {
+			prodKind = "paginated"
+		}
+		sc := skCfg{spec: spec, m: m, pos: gen.StoreKind{Name: prodKind}, neg: gen.StoreKind{Name: prodKind}}
+		s := sc.new()
+		k := newSkModel(m)
+		bud := model.NewBudget(gen.Quantum)
+		n := rapid.IntRange(2, 12).Draw(t, "n")
+		cl.logf("C07 far indexes %s producer=%s unitOnly=%v index range [%d,%d]", spec, prodKind, unitOnly, d.minIdx, d.maxIdx)
+		for i := 0; i < n; i++ {
+			var idx int
+			switch rapid.IntRange(0, 3).Draw(t, "where") {
+			case 0:
+				idx = d.minIdx + rapid.IntRange(0, 1000).Draw(t, "lowoff")
+			case 1:
+				idx = d.maxIdx - rapid.IntRange(0, 1000).Draw(t, "highoff")
+			default:
+				idx = rapid.IntRange(d.minIdx, d.maxIdx).Draw(t, "idx")
+			}
+			v := d.clamp(m.Value(idx))
+			if rapid.Bool().Draw(t, "negside") {
+				v = -v
+			}
+			w := 1.0
+			if !unitOnly {
+				w = gen.LightWeight().Draw(t, "w")
+			}
+			if err := s.AddWithCount(v, w); err != nil {
+				t.Fatalf("C07 far: AddWithCount(%v,%v): %v", v, w, err)
+			}
+			k.add(v, w)
+			cl.logf("(%v,%v) index %d", v, w, m.Index(math.Abs(v)))
+		}
+		span := 0
+		for _, mm := range []model.Map{k.pos, k.neg} {
+			if mn, mx, ok := mm.MinMax(); ok && mx-mn > span {
+				span = mx - mn
+			}
+		}
+		cl.labelIf(span > math.MaxInt32, "index-delta-beyond-int32")
+		cl.label("direction:far-indexes")
+		var b []byte
+		s.Encode(&b, false)
+		content, _, err := refdec.Parse(b)
+		if err != nil {
+			t.Fatalf("C07 far: the encoding does not parse: %v", err)
+		}
+		if msg := contentVsModel(content, sc, k, true); msg != "" {
+			t.Fatalf("C07 far %s: independent decoding differs from the sketch: %s", sc, msg)
+		}
+		targets := []string{"sparse"}
+		if unitOnly {
+			targets = append(targets, "paginated")
+		}
+		for _, tk := range targets {
+			tc := skCfg{spec: spec, m: m, pos: gen.StoreKind{Name: tk}, neg: gen.StoreKind{Name: tk}}
+			dec, err := ddsketch.DecodeDDSketch(b, tc.provider(), nil)
+			if err != nil {
+				t.Fatalf("C07 far: DecodeDDSketch of a valid encoding (producer %s, alpha %v, index span %d) into %s failed: %v", prodKind, alpha, span, tk, err)
+			}
+			if msg := checkAgainstModel(obs.SK{Plain: dec}, tc, k, bud); msg != "" {
+				t.Fatalf("C07 far -> %s: %s", tk, msg)
+			}
+		}
+		// grammar direction: the same content written by the reference writer in the deltas+counts layout, indexes in shuffled order
+		var w refdec.Builder
+		w.Mapping(kindSub[kind], func() float64 { g, _ := gen.GammaOf(m); return g }(), func() float64 { _, o := gen.GammaOf(m); return o }())
+		for side, mm := range []model.Map{k.pos, k.neg} {
+			bins := mm.Sorted()
+			perm := rapid.Permutation(bins).Draw(t, "binorder")
+			var adds []refdec.BinAdd
+			for _, x := range perm {
+				adds = append(adds, refdec.BinAdd{Index: int64(x.Index), Count: x.Count})
+			}
+			if len(adds) > 0 {
+				w.DeltasCounts(side == 1, adds)
+			}
+		}
+		if k.zero != 0 {
+			w.Zero(k.zero)
+		}
+		tc := skCfg{spec: spec, m: m, pos: gen.StoreKind{Name: "sparse"}, neg: gen.StoreKind{Name: "sparse"}}
+		dec, err := ddsketch.DecodeDDSketch(w.B, tc.provider(), nil)
+		if err != nil {
+			t.Fatalf("C07 far/B: DecodeDDSketch refused a well-formed stream whose index deltas exceed 32 bits: %v", err)
+		}
+		if msg := checkAgainstModel(obs.SK{Plain: dec}, tc, k, bud); msg != "" {
+			t.Fatalf("C07 far/B: %s", msg)
+		}
+		cl.done(span > math.MaxInt32)
+	})
+}
